@@ -20,7 +20,10 @@ from concurrent.futures import ThreadPoolExecutor
 
 VERIF = os.path.dirname(os.path.dirname(os.path.abspath(__file__)))
 REPO = "/repo"
-CACHE = os.path.join(VERIF, ".cache")
+# VERIF_CACHE / VERIF_OUT let a run against a mutated tree (seeded-change validation in a private mount
+# namespace) keep its build cache, evidence and replays apart from the real ones.
+CACHE = os.environ.get("VERIF_CACHE") or os.path.join(VERIF, ".cache")
+OUT = os.environ.get("VERIF_OUT") or VERIF
 TARGET = os.path.join(CACHE, "target")
 NPROC = os.cpu_count() or 4
 
@@ -208,7 +211,7 @@ class Ctx:
         self.distinct = set()
         self.findings = load_known_findings()
         os.makedirs(CACHE, exist_ok=True)
-        os.makedirs(os.path.join(VERIF, "evidence"), exist_ok=True)
+        os.makedirs(os.path.join(OUT, "evidence"), exist_ok=True)
 
     # ------------------------------------------------------------ coq
     def coq_gate(self, lib):
@@ -371,7 +374,7 @@ class Ctx:
             self.samples.append(s)
 
     def write_replay(self, obj):
-        d = os.path.join(VERIF, "replays", self.pid)
+        d = os.path.join(OUT, "replays", self.pid)
         os.makedirs(d, exist_ok=True)
         txt = json.dumps(obj, indent=1, sort_keys=True)
         h = hashlib.sha256(txt.encode()).hexdigest()[:16]
@@ -432,12 +435,12 @@ class Ctx:
             "wall_s": round(time.time() - self.t0, 2),
             "violations": len(self.violations),
         }
-        with open(os.path.join(VERIF, "evidence", "%s.json" % self.pid), "w") as f:
+        with open(os.path.join(OUT, "evidence", "%s.json" % self.pid), "w") as f:
             json.dump(ev, f, indent=1)
         for line in self.known:
             print(line)
         for v in self.violations:
-            rel = os.path.relpath(v["replay"], VERIF)
+            rel = os.path.relpath(v["replay"], OUT)
             print("VIOLATION property=%s replay=%s%s" % (self.pid, rel, "" if v["found_input"] else " no-failing-input-found"))
             sys.stderr.write("  -> %s\n" % v["what"][:500])
         print("%s %s: %d/%d obligations, %d cases (%d distinct non-trivial), %d violation(s), %.1fs" % (
